@@ -35,12 +35,12 @@ m = {
         'add_only': True,
     },
     'engines': [
-        {'name': 'tlc-spec', 'path': 'spec/', 'serves_properties': sorted(P.CLAIMED), 'kind_free_text': 'TLA+ specifications checked by TLC: Contract.tla (property monitor), CcImpl.tla (implementation-grain model), TraceContract.tla (trace validation)'},
+        {'name': 'tlc-spec', 'path': 'spec/', 'serves_properties': sorted(P.CLAIMED), 'kind_free_text': 'TLA+ specifications checked by TLC: Contract.tla (property monitor), CcImpl.tla (implementation-grain model, exhaustive and simulation configurations), TraceContract.tla (trace validation), and the table specifications Policy, PtrSpec, Shapes, Threads, SatGraph whose rows / schedules are replayed against the crate'},
         {'name': 'ccverif', 'path': 'harness/', 'serves_properties': sorted(P.CLAIMED), 'kind_free_text': 'Rust conformance harness: replays TLC behaviours into the real crate, drives random/scripted histories, records ndjson traces'},
     ],
     'checks': checks,
     'not_applicable': na,
-    'notes': 'Verdicts come only from spec/Contract.tla evaluated by TLC on traces recorded from the real crate and on every state of the CcImpl model. See DESIGN.md.',
+    'notes': 'Verdicts about histories come only from spec/Contract.tla, evaluated by TLC on traces recorded from the real crate and on every state of the CcImpl model; verdicts of the table stages (policy grid, pointer tables, container / derive shapes, saturation table) come from comparing the real crate with rows printed by TLC from the table specifications. See DESIGN.md section 0.',
 }
 json.dump(m, open(os.path.join(VERIF, 'MANIFEST.json'), 'w'), indent=1)
 print('MANIFEST.json:', len(checks), 'checks,', len(na), 'not claimed')
